@@ -67,6 +67,7 @@ func WorkerMain(t *testing.T) {
 	os.Setenv("HOME", home)
 	os.Setenv("XDG_CONFIG_HOME", home)
 	os.Setenv("GIT_CONFIG_NOSYSTEM", "1")
+	os.Setenv("GIT_CONFIG_GLOBAL", filepath.Join(home, ".gitconfig"))
 	os.Setenv("GIT_TERMINAL_PROMPT", "0")
 	// command credential helper used by C10 (active only while
 	// VERIF_CMDHELPER=1 is exported by the run)
